@@ -106,6 +106,7 @@ def truthy : PyVal → Bool
   | .str s => !s.isEmpty
   | .list l => !l.isEmpty
   | .tuple l => !l.isEmpty
+  | .dict kvs => !kvs.isEmpty
   | _ => true
 
 def not_ (v : PyVal) : PyVal := .bool (!truthy v)
